@@ -2,6 +2,7 @@
 
 from typing import Any, Dict, List, Optional, Union, TYPE_CHECKING
 import math
+import re
 
 if TYPE_CHECKING:
     from .context import Context
@@ -117,6 +118,24 @@ def to_boolean(value: JSValue) -> bool:
     return True
 
 
+# WhiteSpace and LineTerminator code points that StringToNumber strips
+JS_WHITESPACE = (
+    "\t\n\v\f\r \u00a0\u1680\u2000\u2001\u2002\u2003\u2004\u2005\u2006"
+    "\u2007\u2008\u2009\u200a\u2028\u2029\u202f\u205f\u3000\ufeff"
+)
+_RADIX_LITERAL = re.compile(r"0[xX]([0-9a-fA-F]+)\Z|0[oO]([0-7]+)\Z|0[bB]([01]+)\Z")
+_DECIMAL_LITERAL = re.compile(
+    r"[+-]?(?:Infinity|(?:[0-9]+\.?[0-9]*|\.[0-9]+)(?:[eE][+-]?[0-9]+)?)\Z"
+)
+
+
+def norm_number(n: Union[int, float]) -> Union[int, float]:
+    """Keep an integer as int only while a double represents it exactly."""
+    if isinstance(n, int) and not -(2**53) <= n <= 2**53:
+        return float(n)
+    return n
+
+
 def to_number(value: JSValue) -> Union[int, float]:
     """Convert a JavaScript value to number."""
     if value is UNDEFINED:
@@ -128,21 +147,24 @@ def to_number(value: JSValue) -> Union[int, float]:
     if isinstance(value, (int, float)):
         return value
     if isinstance(value, str):
-        s = value.strip()
+        s = value.strip(JS_WHITESPACE)
         if s == "":
             return 0
-        try:
-            if "." in s or "e" in s.lower():
-                return float(s)
-            if s.startswith("0x") or s.startswith("0X"):
-                return int(s, 16)
-            if s.startswith("0o") or s.startswith("0O"):
-                return int(s, 8)
-            if s.startswith("0b") or s.startswith("0B"):
-                return int(s, 2)
-            return int(s)
-        except ValueError:
+        radix_match = _RADIX_LITERAL.match(s)
+        if radix_match:
+            digits = radix_match.group(1) or radix_match.group(2) or radix_match.group(3)
+            radix = 16 if radix_match.group(1) else 8 if radix_match.group(2) else 2
+            return norm_number(int(digits, radix))
+        if not _DECIMAL_LITERAL.match(s):
             return float("nan")
+        if s.endswith("Infinity"):
+            return float("-inf") if s[0] == "-" else float("inf")
+        if s.lstrip("+-").isdigit():
+            n = int(s)
+            if n == 0 and s[0] == "-":
+                return -0.0
+            return norm_number(n)
+        return float(s)
     # TODO: Handle objects with valueOf
     return float("nan")
 
